@@ -134,7 +134,7 @@ theorem inv_stepP (P : Params) (s s' : St) (h : RInv P s) (hs : stepP P s = some
       simp only; unfold expected; rw [e]; exact ⟨h4, h5, h6⟩
     · rw [if_neg hf] at hs; injection hs with hs; subst hs
       refine ⟨hc, hb, ht, ?_⟩
-      simp only; exact ⟨h1, h2, lt_stopIdx_of_ok P i h3 h2 hf, rfl, h4, h5, h6⟩
+      simp only; exact ⟨h1, h2, lt_stopIdx_of_ok P i h3 h2 hf, trivial, h4, h5, h6⟩
   | putting i x =>
     simp only [hp] at hs hm
     obtain ⟨h1, h2, h3, hx, h4, h5, h6⟩ := hm
@@ -220,23 +220,23 @@ theorem inv_stepC (P : Params) (hB : 0 < P.B) (s s' : St) (h : RInv P s)
         | reading j =>
           simp only [hp] at hm ⊢
           obtain ⟨h1, h2, h3, _, h5, h6⟩ := hm
-          refine ⟨h1, h2, h3, rfl, allFrames_cons_frame h5, ?_⟩
+          refine ⟨h1, h2, h3, trivial, allFrames_cons_frame h5, ?_⟩
           simpa [framesOf] using h6
         | putting j y =>
           simp only [hp] at hm ⊢
           obtain ⟨h1, h2, h3, hy, _, h5, h6⟩ := hm
-          refine ⟨h1, h2, h3, hy, rfl, allFrames_cons_frame h5, ?_⟩
+          refine ⟨h1, h2, h3, hy, trivial, allFrames_cons_frame h5, ?_⟩
           simpa [framesOf] using h6
         | putSent =>
           simp only [hp] at hm ⊢
           obtain ⟨_, h4, h5⟩ := hm
-          refine ⟨rfl, allFrames_cons_frame h4, ?_⟩
+          refine ⟨trivial, allFrames_cons_frame h4, ?_⟩
           simpa [framesOf] using h5
         | done =>
           simp only [hp] at hm ⊢
           rcases hm with ⟨_, fs, h4, h5⟩ | ⟨h3, _⟩
           · left
-            refine ⟨rfl, ?_⟩
+            refine ⟨trivial, ?_⟩
             cases fs with
             | nil => simp at h4
             | cons f fs' =>
@@ -267,7 +267,7 @@ theorem inv_stepC (P : Params) (hB : 0 < P.B) (s s' : St) (h : RInv P s)
                 rw [ht]; simp [takenSpec, hcp, delivered]
               · simp only [hp]
                 right
-                refine ⟨by simp, h4, rfl, ?_⟩
+                refine ⟨by simp, h4, trivial, ?_⟩
                 rw [hflat, h5]
           · exact absurd hcp h3
 
@@ -288,13 +288,13 @@ theorem consumer_enabled_of_nonempty (P : Params) (s : St) (hc : s.c = .getting)
   cases x <;> simp <;> split <;> rfl
 
 theorem nonempty_of_not_canPut (P : Params) (s : St) (h : ¬ canPut P s) : s.q ≠ [] := by
-  intro e; unfold canPut at h; rw [e] at h; simp at h; omega
+  intro e; unfold canPut at h; rw [e] at h; simp only [List.length_nil] at h; omega
 
 theorem no_deadlock (P : Params) (s : St) (h : RInv P s) :
     (stepP P s).isSome ∨ (stepC P s).isSome ∨ isFinal s := by
   obtain ⟨hc, hb, ht, hm⟩ := h
   cases hp : s.p with
-  | reading i => left; simp only [stepP, hp]; split <;> rfl
+  | reading i => left; by_cases hf : P.fail = some i <;> simp [stepP, hp, hf]
   | putting i x =>
     simp only [hp] at hm
     by_cases hl : canPut P s
@@ -331,8 +331,7 @@ theorem mu_decreases (P : Params) (s s' : St) (st : Step P s s') : mu P s' < mu 
       simp only [hp] at e
       split at e
       · injection e with e; subst e
-        simp only [mu, pcRank, hp, loopPc]
-        split <;> simp [pcRank] <;> omega
+        by_cases hlt : i + 1 < P.stop <;> simp [mu, pcRank, hp, loopPc, hlt] <;> omega
       · cases e
     | putSent =>
       simp only [hp] at e
@@ -373,14 +372,12 @@ theorem pick_step (P : Params) (s s' : St) (w who : Bool) (h : pick P s w = some
     | some t => simp [hp] at h; exact .prod (h.2 ▸ hp)
     | none =>
       simp [hp] at h
-      obtain ⟨t, ht, _, rfl⟩ := h
-      exact .cons ht
+      exact .cons h.1
   · cases hc : stepC P s with
     | some t => simp [hc] at h; exact .cons (h.2 ▸ hc)
     | none =>
       simp [hc] at h
-      obtain ⟨t, ht, _, rfl⟩ := h
-      exact .prod ht
+      exact .prod h.1
 
 theorem pick_none (P : Params) (s : St) (w : Bool) (h : pick P s w = none) :
     stepP P s = none ∧ stepC P s = none := by
@@ -512,7 +509,7 @@ theorem binv_step (P : Params) (hB : 0 < P.B) (s s' : St) (hb : s.batch.length <
           · intro _
             by_cases hbn : s.batch = []
             · simp only [hbn, if_true]
-              refine ⟨fun b hbm => hfull b (List.mem_of_mem_dropLast hbm), ?_⟩
+              refine ⟨fun b hbm => hfull b (List.dropLast_subset _ hbm), ?_⟩
               intro b hbm; have := hfull b hbm; omega
             · simp only [hbn, if_false]
               refine ⟨by simpa using hfull, ?_⟩
@@ -555,14 +552,13 @@ theorem chunk_getElem {α} (B : Nat) (L : List (List α))
         simp only [List.getElem_cons_succ, List.flatten_cons] at this ⊢
         rw [this]
         have e : (k + 1) * B = b.length + k * B := by rw [hb, Nat.succ_mul]; omega
-        rw [e, List.drop_append]
-        simp
+        rw [e, List.drop_length_add_append]
 
 theorem chunk_count {α} (B : Nat) (hB : 0 < B) (L : List (List α))
     (hfull : ∀ b ∈ L.dropLast, b.length = B) (hall : ∀ b ∈ L, 0 < b.length ∧ b.length ≤ B) :
     L.length = (L.flatten.length + B - 1) / B := by
   induction L with
-  | nil => simp; omega
+  | nil => simp; exact (Nat.div_eq_of_lt (by omega)).symm
   | cons b r ih =>
     cases r with
     | nil =>
@@ -580,5 +576,48 @@ theorem chunk_count {α} (B : Nat) (hB : 0 < B) (L : List (List α))
       have : B + (b'.length + r'.flatten.length) + B - 1 = (b'.length + r'.flatten.length + B - 1) + B := by
         omega
       rw [this, Nat.add_div_right _ hB]
+
+/-! ### finite runs -/
+
+/-- `Steps P n s s'`: `s'` is reached from `s` by exactly `n` transitions -/
+inductive Steps (P : Params) : Nat → St → St → Prop
+  | refl (s) : Steps P 0 s s
+  | cons {n s s' s''} : Step P s s' → Steps P n s' s'' → Steps P (n+1) s s''
+
+theorem steps_bound (P : Params) {n : Nat} {s s' : St} (h : Steps P n s s') :
+    n + mu P s' ≤ mu P s := by
+  induction h with
+  | refl s => simp
+  | cons st _ ih => have := mu_decreases P _ _ st; omega
+
+theorem steps_reach (P : Params) {n : Nat} {s s' : St} (h : Steps P n s s') (hr : Reach P s) :
+    Reach P s' := by
+  induction h with
+  | refl s => exact hr
+  | cons st _ ih => exact ih (.step hr st)
+
+/-! ### prefixes of the expected sequence, position of the marker -/
+
+theorem upto_prefix (P : Params) (i : Nat) (h1 : P.start ≤ i) (h2 : i ≤ stopIdx P) :
+    upto P i <+: expected P := by
+  unfold expected upto idxUpto
+  have e : stopIdx P - P.start = (i - P.start) + (stopIdx P - i) := by omega
+  rw [e, ← List.range'_append_1, List.map_append]
+  exact List.prefix_append _ _
+
+theorem count_sentinel_map (fs : List Payload) : (fs.map Item.frame).count Item.sentinel = 0 := by
+  induction fs with
+  | nil => rfl
+  | cons x r ih => simp [List.count_cons, ih]
+
+theorem allFrames_count {q : List Item} (h : allFrames q) : q.count Item.sentinel = 0 := by
+  unfold allFrames at h; rw [h]; exact count_sentinel_map _
+
+theorem expected_length (P : Params) : (expected P).length = stopIdx P - P.start := by
+  simp [expected, upto, idxUpto]
+
+theorem expected_getElem (P : Params) (j : Nat) (hj : j < (expected P).length) :
+    (expected P)[j] = P.pay (P.start + j) := by
+  simp [expected, upto, idxUpto]
 
 end SleapVerif.Reader
